@@ -42,6 +42,23 @@ void H() { IndexRemapper remap; \
 REMAP_ENTRY(h_remap_type, InterrogateType)
 REMAP_ENTRY(h_remap_function, InterrogateFunction)
 REMAP_ENTRY(h_remap_wrapper, InterrogateFunctionWrapper)
-REMAP_ENTRY(h_remap_element, InterrogateElement)
+// record invariant of elements (as the builder and the reader establish it): a function slot is 0 ("none") unless its flag
+// says it is in use; the length function belongs to sequence and mapping properties.  With it a flag-guarded implementation
+// of remap_indices is as acceptable as the unconditional one.
+#define ELEMENT_INV(e) \
+  ((((e)._flags & InterrogateElement::F_has_getter) || (e)._getter == 0) && (((e)._flags & InterrogateElement::F_has_setter) || (e)._setter == 0) && \
+   (((e)._flags & InterrogateElement::F_has_has_function) || (e)._has_function == 0) && (((e)._flags & InterrogateElement::F_has_clear_function) || (e)._clear_function == 0) && \
+   (((e)._flags & InterrogateElement::F_has_del_function) || (e)._del_function == 0) && (((e)._flags & InterrogateElement::F_has_insert_function) || (e)._insert_function == 0) && \
+   (((e)._flags & InterrogateElement::F_has_getkey_function) || (e)._getkey_function == 0) && \
+   (((e)._flags & (InterrogateElement::F_sequence | InterrogateElement::F_mapping)) || (e)._length_function == 0))
+static InterrogateElement g_obj_InterrogateElement, g_snap_InterrogateElement;
+void h_remap_element() { IndexRemapper remap;
+  __CPROVER_assume(__CPROVER_uninterpreted_remap(0) == 0);
+  havoc_InterrogateElement(g_obj_InterrogateElement);
+  __CPROVER_assume(ELEMENT_INV(g_obj_InterrogateElement));
+  copy_InterrogateElement(g_snap_InterrogateElement, g_obj_InterrogateElement);
+  g_obj_InterrogateElement.remap_indices(remap);
+  check_remap_InterrogateElement(g_obj_InterrogateElement, g_snap_InterrogateElement);
+  VU_REACHED(); }
 REMAP_ENTRY(h_remap_manifest, InterrogateManifest)
 REMAP_ENTRY(h_remap_make_seq, InterrogateMakeSeq)
